@@ -251,26 +251,34 @@ def createFolder (s : State) (n : Name) : State × Folder :=
     ({ s with folders := dictSet Folder.id s.folders g, folderRoutes := (n, g.id) :: s.folderRoutes,
               next := s.next + 1 }, g)
 
-/-- `_create_file_action` + `FileSystem.create_file` via the request (`file_type=None`, so the name is kept as given).
-An empty folder name is falsy: the root folder is used. -/
+/-- First half of `create_file`: the folder the file goes to. A non-empty (truthy) folder name denotes the live folder
+of that name, created when missing; an empty one denotes the root folder (`None` when there is no live root, on which
+the code would raise `AttributeError`). -/
+def createFileTarget (s : State) (F : Name) : State × Option Folder :=
+  if F ≠ "" then
+    match getFolder s F with
+    | some g => (s, some g)
+    | none => let r := createFolder s F; (r.1, some r.2)
+  else (s, getFolder s "root")
+
+/-- Second half of `create_file`: look the name up in that folder (`self.get_file(folder.name, file_name)` — the
+folder is the first live one of its own name, so this is `folder.get_file`); an existing file is re-added (only
+reachable when forced), otherwise a new `File` is created; `add_file`; count the creation. -/
+def createFileIn (s1 : State) (g : Folder) (x : Name) : State × Out :=
+  match g.getFile x with
+  | some f =>
+    ({ updFolder s1 g.id (fun g => g.addFile f) with numCreations := s1.numCreations + 1 }, .success)
+  | none =>
+    ({ updFolder s1 g.id (fun g => g.addFile { id := s1.next, name := x }) with
+        numCreations := s1.numCreations + 1, next := s1.next + 1 }, .success)
+
+/-- `_create_file_action` + `FileSystem.create_file` via the request (`file_type=None`, so the name is kept as given):
+an unforced create of an existing live file is refused before `create_file` is called. -/
 def createFile (s : State) (F x : Name) (force : Bool) : State × Out :=
   if !force && (getFile s (if F = "" then "root" else F) x).isSome then (s, .failure) else
-  let (s1, og) : State × Option Folder :=
-    if F ≠ "" then
-      match getFolder s F with
-      | some g => (s, some g)
-      | none => let (s1, g) := createFolder s F; (s1, some g)
-    else (s, getFolder s "root")
-  match og with
-  | none => (s1, .raised)
-  | some g =>
-    match g.getFile x with
-    | some f =>
-      ({ updFolder s1 g.id (fun g => g.addFile f) with numCreations := s1.numCreations + 1 }, .success)
-    | none =>
-      let f : File := { id := s1.next, name := x }
-      ({ updFolder s1 g.id (fun g => g.addFile f) with numCreations := s1.numCreations + 1, next := s1.next + 1 },
-       .success)
+  match createFileTarget s F with
+  | (s1, none) => (s1, .raised)
+  | (s1, some g) => createFileIn s1 g x
 
 /-- `["delete","file",F,x]`: `_FileExistsValidator`, then `FileSystem.delete_file`. -/
 def deleteFile (s : State) (F x : Name) : State × Out :=
